@@ -186,6 +186,22 @@ def run(ck, P):
     ck.ob("C09.3-DUPLICATE", rm.site("refused insert releases source"), bad is None and n > 0, "%d refusing path(s) release the new source and return the insert result" % n
           if bad is None else bad[0], path=rules.fmt_path(rm, bad[1]) if bad else None,
           witness=[("del_event", rm.unit, rm.name, e.block.id, e.idx) for e in rm.calls({"m_mem_unref", "m_mem_unrefp"}) if S(e.args[0]).lstrip("&") == srcv])
+    bad = None
+    for path in rm.paths():
+        evs = list(rules.path_events(rm, path))
+        if ins[0] not in evs:
+            continue
+        a = rules.path_assumes_after(path, ins[0])
+        if a.get(rv) is False or a.get("(%s == 0)" % rv) is True:
+            after = evs[evs.index(ins[0]):]
+            unr = [e for e in after if e.kind == "call" and e.callee in ("m_mem_unref", "m_mem_unrefp") and S(e.args[0]).lstrip("&") == srcv]
+            rmv = [e for e in after if e.kind == "call" and e.callee == "m_bst_remove"]
+            if unr and not rmv:
+                bad = path
+    ck.ob("C09.3-DUPLICATE", rm.site("accepted source stays owned by the set"), bad is None,
+          "once inserted, the source is never released by register_mod_src without being removed from the set" if bad is None else
+          "after a successful insertion the source is released (m_mem_unref) while the set still holds it: dangling element, use after free on the next lookup/count",
+          path=rules.fmt_path(rm, bad) if bad else None)
     for name in ("m_mod_src_register_fd", "m_mod_src_register_tmr", "m_mod_src_register_sgn", "m_mod_src_register_path", "m_mod_src_register_pid",
                  "m_mod_src_register_task", "m_mod_src_register_thresh"):
         f = P.fn(name, SRC)
@@ -325,6 +341,13 @@ def run(ck, P):
     ck.ob("C09.7-SUBSCRIPTIONS", sb.site("replace removes old entry; regex released"), bad2 is None and n2 > 0,
           "%d replacing path(s) remove the old entry first; the in-place path releases the compiled regex" % n2 if bad2 is None else bad2[0],
           path=rules.fmt_path(sb, bad2[1]) if bad2 else None)
+    exs = rules.Expander(sb, stable=False)
+    keys = [exs.at(e, e.args[1]) for e in puts if "subscriptions" in S(e.args[0])]
+    vals = [S(e.args[2]) for e in puts if "subscriptions" in S(e.args[0])]
+    okk = bool(keys) and all(k in ("%s->ps_src.topic" % v, "&%s->ps_src->topic" % v) or k.endswith("ps_src.topic") or k.endswith("ps_src->topic") for k, v in zip(keys, vals))
+    ck.ob("C09.7-SUBSCRIPTIONS", sb.site("map key owned by the subscription"), okk,
+          "the subscriptions map is keyed by the subscription's own topic (%s), which lives exactly as long as the entry" % keys if okk else
+          "the subscriptions map is keyed by %s, not by the subscription's own (possibly duplicated) topic: the key is caller memory that may be freed or reused" % keys)
     mk = [e for e in sb.events() if e.kind == "assign" and S(e.lhs) == "mod->subscriptions" and strip(e.rhs).get("callee") == "m_map_new"]
     okm = bool(mk) and all((cval(strip(e.rhs)["args"][0]) or 0) & E["M_MAP_VAL_ALLOW_UPDATE"] and S(strip(e.rhs)["args"][1]) == "mem_dtor" for e in mk)
     ck.ob("C09.7-SUBSCRIPTIONS", sb.site("map allows update"), okm, "subscriptions map = %s" % [S(e.rhs) for e in mk])
